@@ -463,6 +463,85 @@ pub fn replay_api_history(yaml: &str, sw: u8, docs: &[MObj], ops: &[u8]) {
     }
 }
 
+/// part 2c: every ordered pair (thorough: triple) of optimise() calls with different switch sets on
+/// one thread: what the last call returns must not depend on the calls before it
+fn part2c(yaml: &str, docs: &[MObj], depth: usize) -> Stats {
+    let mut st = Stats::default();
+    if eng::load(yaml).is_err() {
+        return st;
+    }
+    let result = |r: &Rule, sw: u8| -> String {
+        match eng::optimise_with(r, sw, &[]) {
+            Ok((o, _)) => format!(
+                "{}#{}",
+                eng::canon(&o),
+                docs.iter().map(|d| match eng::matches(&o, d) { Ok(true) => '1', Ok(false) => '0', Err(_) => 'P' }).collect::<String>()
+            ),
+            Err(p) => format!("PANIC {}", p),
+        }
+    };
+    let on_fresh_thread = |seq: Vec<u8>| -> String {
+        std::thread::scope(|sc| {
+            sc.spawn(|| {
+                let r = match eng::load(yaml) {
+                    Ok(r) => r,
+                    Err(_) => return "load".to_string(),
+                };
+                let mut last = String::new();
+                for sw in &seq {
+                    last = result(&r, *sw);
+                }
+                last
+            })
+            .join()
+            .unwrap_or_else(|_| "thread".into())
+        })
+    };
+    let reference: Vec<String> = (0u8..16).map(|sw| on_fresh_thread(vec![sw])).collect();
+    let mut distinct = HashSet::new();
+    for r in &reference {
+        distinct.insert(r.clone());
+    }
+    let total = 16u32.pow(depth as u32);
+    for i in 0..total {
+        let seq: Vec<u8> = (0..depth).map(|k| ((i >> (4 * k)) & 15) as u8).collect();
+        let got = on_fresh_thread(seq.clone());
+        st.states += 1;
+        st.traces += 1;
+        st.evaluations += 1;
+        st.transitions += depth as u64;
+        let last = *seq.last().unwrap() as usize;
+        if got != reference[last] {
+            let names: Vec<String> = seq.iter().map(|s| eng::sw_name(*s)).collect();
+            st.push_violation(Violation {
+                signature: "optimise-result-depends-on-earlier-optimise-calls-of-the-thread".into(),
+                witness: format!("after optimise calls {:?} on one thread the last one gives {} ; alone on a fresh thread it gives {} ; rule {}", names, got.chars().take(220).collect::<String>(), reference[last].chars().take(220).collect::<String>(), one_line(yaml)),
+                replay: json!({"kind":"optimise-sequence","rule_yaml":yaml,"switch_sequence":seq,"documents":docs.iter().map(crate::report::mobj_to_json).collect::<Vec<_>>()}),
+            });
+        }
+    }
+    st.count("optimise_sequences", total as u64);
+    if distinct.len() > 1 {
+        st.nontrivial += 1;
+    }
+    st
+}
+
+/// rules for part 2c: quantified keys over nested blocks, blocks that shake reorders, or-groups
+/// that become matrices - the shapes in which one pass consumes what another produced
+fn rich_rules() -> Vec<String> {
+    let w = |body: &str, cond: &str| format!("detection:\n{}\n  condition: {}\ntrue_positives: []\ntrue_negatives: []\n", body, cond);
+    vec![
+        w("  A:\n    all(n): [{x: ['b*', 'a'], y: b}, {x: a}]", "A"),
+        w("  A:\n    of(n, 1): [{z: {w: a}, x: a}, {y: '*'}]", "A"),
+        w("  A:\n    all(n): [{x: ['foo', '*']}, {y: {z: a}, x: b}]\n  B: {f: a}", "A or B"),
+        w("  A: [{f: 'a*', g: x}, {f: '*b'}, {g: y, n: {x: a}}]\n  B: {n: {y: b}}", "A and B"),
+        w("  A: {n: {x: a}, g: x}\n  B: {n: {of(y, 1): [1, 2, 'a*']}}\n  C: {f: ['*a*', '?b']}", "A and B and not C"),
+        w("  A: {all(f): ['*a*', '*b*'], g: ['x', 'iy']}\n  B: [{f: a}, {f: '?^b'}, {h: 1}]", "of(A, 1) or all(B)"),
+        w("  A: {f: ['a*', '*b'], n: {x: ['a', 'b*']}}\n  B: {f: ['ia*', 'i*b'], n: {x: a}}", "A or not B"),
+    ]
+}
+
 // ---------------------------------------------------------------------------------------------
 // part 3: schedules - all interleavings of matches() calls at callback granularity
 
@@ -848,11 +927,44 @@ fn rule_digest(sp: &RuleSpec) -> Option<u64> {
 }
 
 /// the rules whose pairwise order is explored exhaustively (one fresh process per ordered pair)
+/// rules that a lossy cache key could confuse with one another: the same needles in another
+/// order, with another kind, another case flag, or split at another place (a needle containing
+/// the separator a key might be joined with); in row form (merged by shake) and in list form
+pub fn confusable_specs() -> Vec<RuleSpec> {
+    use crate::gen::{e, list, st, Body};
+    let rows = |ps: &[&str]| RuleSpec::one(Body::Seq(ps.iter().map(|p| vec![e("f", st(p))]).collect()));
+    let lst = |ps: &[&str]| RuleSpec::one(Body::Map(vec![e("f", list(ps.iter().map(|p| st(p)).collect()))]));
+    let sets: Vec<Vec<&str>> = vec![
+        vec!["a*", "*b"],
+        vec!["*b", "a*"],
+        vec!["*a", "b*"],
+        vec!["b*", "*a"],
+        vec!["ia*", "i*b"],
+        vec!["a", "*b*"],
+        vec!["*a*", "b"],
+        vec!["*a*", "*b*", "*x*"],
+        vec!["*x*", "*b*", "*a*"],
+        vec!["*a|b*", "*x*"],
+        vec!["*a*", "*b|x*"],
+        vec!["*a,b*", "*x*"],
+        vec!["?a", "?b"],
+        vec!["?b", "?a"],
+        vec!["i?a", "i?b"],
+    ];
+    let mut out = vec![];
+    for ps in &sets {
+        out.push(rows(ps));
+        out.push(lst(ps));
+    }
+    out
+}
+
 pub fn pair_specs() -> Vec<RuleSpec> {
     let mut v: Vec<RuleSpec> = gen::family_regex(3).into_iter().filter(|s| eng::load(&s.yaml()).is_ok()).collect();
     v.extend(gen::family_single(0).into_iter().step_by(97));
     v.extend(gen::family_matrix(0).into_iter().step_by(997));
     v.extend(gen::family_wide().into_iter().step_by(7));
+    v.extend(confusable_specs());
     v
 }
 
@@ -975,6 +1087,44 @@ pub fn run(tier: Tier) -> i32 {
         rep.stats.merge(p);
     }
     rep.stats.count("part2b_rules", api_specs.len() as u64);
+    // part 2c: sequences of optimise calls on one thread
+    let mut seq_rules: Vec<(String, Vec<MObj>)> = vec![];
+    for sp in api_specs.iter().step_by(if th { 1 } else { 2 }) {
+        seq_rules.push((sp.yaml(), gen::docs_for(sp, 1, 16)));
+    }
+    for sp in confusable_specs() {
+        seq_rules.push((sp.yaml(), gen::docs_for(&sp, 1, 16)));
+    }
+    let rich_docs: Vec<MObj> = {
+        use crate::mdoc::{arr, obj, s as ms, MVal};
+        let o = |v: MVal| match v { MVal::Obj(o) => o, _ => MObj::new() };
+        vec![
+            MObj::new(),
+            o(obj(vec![("f", ms("ab")), ("g", ms("x")), ("n", obj(vec![("x", ms("a")), ("y", ms("b"))]))])),
+            o(obj(vec![("f", ms("a")), ("n", arr(vec![obj(vec![("x", ms("a"))]), obj(vec![("y", ms("b")), ("x", ms("b"))])]))])),
+            o(obj(vec![("f", ms("b")), ("g", ms("y")), ("h", MVal::Int(1)), ("n", obj(vec![("y", MVal::Int(1)), ("z", obj(vec![("w", ms("a"))]))]))])),
+            o(obj(vec![("n", obj(vec![("x", ms("foo")), ("y", obj(vec![("z", ms("a"))]))]))])),
+        ]
+    };
+    for y in rich_rules() {
+        seq_rules.push((y, rich_docs.clone()));
+    }
+    let parts: Vec<Stats> = seq_rules.par_iter().map(|(y, d)| part2c(y, d, 2)).collect();
+    for p in parts {
+        rep.stats.merge(p);
+    }
+    if th {
+        let parts: Vec<Stats> = seq_rules.par_iter().step_by(4).map(|(y, d)| part2c(y, d, 3)).collect();
+        for p in parts {
+            rep.stats.merge(p);
+        }
+        let rr = rich_rules();
+        let parts: Vec<Stats> = rr.par_iter().map(|y| part2c(y, &rich_docs, 3)).collect();
+        for p in parts {
+            rep.stats.merge(p);
+        }
+    }
+    rep.stats.count("part2c_rules", seq_rules.len() as u64);
     rep.extra.insert("api_history_operations".into(), json!(API_OPS));
     rep.extra.insert("api_history_depth".into(), json!(api_depth));
     // part 3 (sequential: shuttle owns its thread)
@@ -1210,7 +1360,12 @@ pub fn run(tier: Tier) -> i32 {
         })
         .collect();
     let np = pv.len();
-    let pairs: Vec<(usize, usize)> = (0..np).flat_map(|i| (0..np).map(move |j| (i, j))).filter(|(i, j)| i != j).collect();
+    // quick: pairs within the general slice and within the confusable family; thorough: all pairs
+    let n_old = np - confusable_specs().len();
+    let pairs: Vec<(usize, usize)> = (0..np)
+        .flat_map(|i| (0..np).map(move |j| (i, j)))
+        .filter(|(i, j)| i != j && (th || (*i < n_old) == (*j < n_old)))
+        .collect();
     let bad_pairs: Vec<(usize, usize, String)> = pairs
         .par_iter()
         .filter_map(|(i, j)| {
